@@ -372,6 +372,10 @@ func (x *Exec) loopHead(li *loopInfo, st *State, variants map[*ssa.BasicBlock]Te
 			x.assume(st, x.rangeIndexInv(li, a, t))
 		}
 	}
+	if len(invs) > 0 {
+		// vacuity guard: invariants together with the path condition must be satisfiable
+		x.obls = append(x.obls, &Obligation{Name: fmt.Sprintf("%s:loop%d-reach", x.short, li.ordinal), Kind: "loop-reach", Props: x.props(), Prefix: x.out.Len(), Live: st.live, Goal: "false", Canary: true, Func: x.short})
+	}
 	if dec != nil {
 		v := x.evalClause(dec, x.fn, st, x.entry, nil, false)
 		vsort := "Int"
